@@ -68,6 +68,7 @@ class Ctx:
         self._fact_ids = set()
         self.n_branches = 0
         self.lineno = None
+        self.stmt_tag = None
         self.func = ""
         self.obligations = []
         self.where_log = []
@@ -217,7 +218,8 @@ class Ctx:
             self.session.safety_trivial += 1
             return
         fn = self.func or "?"
-        self.oblige(f"safety.{fn}:{self.lineno}.{kind}", goal, "safety", detail)
+        # id = function + hash of the statement's own text + kind (no line numbers: ids must survive harmless edits)
+        self.oblige(f"safety.{fn}@{self.stmt_tag}.{kind}", goal, "safety", f"{detail} (line {self.lineno})")
 
 
 class Session:
